@@ -204,6 +204,37 @@ def std_pairings(reg, W=(1, 2), with_subtotals=True, sizes=None):
     return reg
 
 
+SCALES = (-40, 30)      # weights multiplied by 2**e: exact in binary floating point
+
+
+def scaled_parts(sch, data, cfg, e, **cube_kw):
+    """partitions of the same survey with every weight multiplied by 2**e (only meaningful for weighted schemas)"""
+    from cr.cube.cube import Cube
+    from mc.model import tabulate
+    k = 2.0 ** e
+    d2 = [(a, w * k, x) for a, w, x in data]
+    return Cube(tabulate(sch, d2), transforms=transforms_for(cfg), **cube_kw).partitions
+
+
+def scale_invariant(V, names, part, spart, e, power=0.0, tag=""):
+    """outputs `names` of the weight-scaled partition must equal those of `part` times (2**e)**power - bit for bit
+    apart from NaN == NaN (scaling by a power of two commutes with every rounding in a ratio)"""
+    import numpy as np
+    from mc.compare import first_diff
+    from mc.engine import viol
+    n = 0
+    f = (2.0 ** e) ** power
+    for nm in names:
+        a = np.asarray(getattr(part, nm), dtype=float)
+        b = np.asarray(getattr(spart, nm), dtype=float)
+        n += 1
+        d = first_diff(b, (a * f).tolist(), 1e-12, 0.0)
+        if d is not None:
+            V.append(viol("weight_scale:%s%s" % (nm, tag), "%s with all weights x 2^%d at %s: %r, unscaled run%s gives %r"
+                          % (nm, e, d[0], d[1], (" x 2^%g" % (e * power)) if power else "", d[2]), output=nm))
+    return n
+
+
 def reverse_read(V, fresh, expected, tag=""):
     """Order-of-reads guard. `fresh` is an untouched partition of an identical cube, `expected` maps output
     name -> the oracle value the forward reading was compared with. The outputs are read in REVERSE order,
